@@ -275,6 +275,30 @@ func c16Run(c *mon.Ctx, idx int) {
 // ---------------------------------------------------------------------------
 // C19
 
+// c19Scribble rewrites, in place, every selector part and literal of a tree.
+func c19Scribble(e grammar.Expression) {
+	switch x := e.(type) {
+	case *grammar.UnaryExpression:
+		c19Scribble(x.Operand)
+	case *grammar.BinaryExpression:
+		c19Scribble(x.Left)
+		c19Scribble(x.Right)
+	case *grammar.MatchExpression:
+		for i := range x.Selector.Path {
+			x.Selector.Path[i] = "SCRIBBLED" + strings.ToUpper(x.Selector.Path[i])
+		}
+		if x.Value != nil {
+			x.Value.Raw = "scribbled"
+		}
+	case *grammar.CollectionExpression:
+		for i := range x.Selector.Path {
+			x.Selector.Path[i] = "SCRIBBLED" + strings.ToUpper(x.Selector.Path[i])
+		}
+		x.NameBinding.Default, x.NameBinding.Index, x.NameBinding.Value = "s1", "s2", "s3"
+		c19Scribble(x.Inner)
+	}
+}
+
 func c19Run(c *mon.Ctx, idx int) {
 	r := c.RNG(idx)
 	tree := xgen.RandTree(r, 1+r.Intn(5))
@@ -367,6 +391,31 @@ func c19Run(c *mon.Ctx, idx int) {
 				return
 			}
 			c.Count("dumps_compared")
+		}
+	}
+	// two trees parsed from the same text are two trees: the owner of one
+	// rewrites its selector parts and literals in place, the dump of the
+	// other stays what it was (and so does a tree parsed afterwards)
+	if idx%25 == 6 {
+		if o2 := observeParse(txt, safeBudget); o2.Err == nil && o2.Panic == "" {
+			if t2, ok := o2.Val.(grammar.Expression); ok && t2 != nil {
+				var before, after, later bytes.Buffer
+				t2.ExpressionDump(&before, "  ", 0)
+				c19Scribble(real)
+				t2.ExpressionDump(&after, "  ", 0)
+				if o3 := observeParse(txt, safeBudget); o3.Err == nil {
+					if t3, ok := o3.Val.(grammar.Expression); ok && t3 != nil {
+						t3.ExpressionDump(&later, "  ", 0)
+					}
+				}
+				if after.String() != before.String() || (later.Len() > 0 && later.String() != before.String()) {
+					c.Violation("C19 dump-changed-by-another-tree", "after the owner of ANOTHER tree (parsed from the same text) rewrote that tree in place, this tree - or one parsed afterwards - renders differently",
+						map[string]any{"expression": clip(txt, 300), "before": clip(before.String(), 500), "after": clip(after.String(), 500), "parsed_afterwards": clip(later.String(), 500)})
+					return
+				}
+				c.Count("sibling_tree_independence_checked")
+				return // `real` has been scribbled on
+			}
 		}
 	}
 	// concurrent dumps of different trees must not disturb one another (a
@@ -540,7 +589,7 @@ func init() {
 		NumCases:    func(tier string) int { return tierN(tier, 12000, 500000) },
 		Run:         c19Run,
 		Required: func(tier string) []string {
-			l := []string{"dumps_compared", "concurrent_dump_rounds", "long_literal_dumps", "long_indent_units", "deep_tree_dumps", "selector_strings", "node:pointer-selector", "node:Or", "node:And", "node:Not", "node:Quant", "node:Match", "node:bind:0", "node:bind:1", "node:bind:2", "node:bind:3"}
+			l := []string{"dumps_compared", "concurrent_dump_rounds", "long_literal_dumps", "long_indent_units", "deep_tree_dumps", "sibling_tree_independence_checked", "selector_strings", "node:pointer-selector", "node:Or", "node:And", "node:Not", "node:Quant", "node:Match", "node:bind:0", "node:bind:1", "node:bind:2", "node:bind:3"}
 			for _, o := range xgen.OpNames {
 				l = append(l, "node:op:"+o)
 			}
